@@ -28,6 +28,8 @@ BOUNDARY = [0x00, 0x1f, 0x20, 0x24, 0x25, 0x2a, 0x2b, 0x2d, 0x2e, 0x2f, 0x30, 0x
             0xfc, 0xfd, 0xfe, 0xff, 0x0a, 0x98]
 ALPHA = ['0', '9', 'A', 'Z', ' ', ':', 'a', '\xe9', 'ｱ', '点', '漢', 'д', '€', '书', '\x00', '\n', '①', '‾']   # last two: cp932-only / Shift-JIS-only
 
+# text that is not in Unicode normalisation form C (the content is given code points, not "characters")
+NON_NFC = ['e\u0301', 'A\u030a', '\u2126', '\u212b', '\u212a', '\u1100\u1161', '\uf900', 'caf\u0065\u0301', '\ufb01', '\u00c5\u212b', '\u1e9b\u0323']
 REP_CONTENTS = ['0123456789', 'HELLO WORLD', 'hello world', 'h\xe9llo', '点漢', '€ uro', '书读', 42,
                 b'\x00\xff\x80', b'\x93\x5f\xe4\xaa', ('12', 'AB', 'cd'), (('点', 8), ('x', 4, 'utf-8'), 7)]
 OPT_DOMAINS = [
@@ -103,6 +105,10 @@ def gen_cases(tier):
         yield ('alnumrow', a)
     for h in range(10):
         yield ('numrow', h)
+    for t in NON_NFC:
+        for kw in ({}, {'micro': False}, {'encoding': 'utf-8'}, {'eci': True}, {'mode': 'byte'}, {'error': 'H', 'version': 3}):
+            yield ('call', t, kw)
+        yield ('call', [t, '1'], {})
     yield ('ecitable',)
     yield ('repeats',)
     yield ('altreq',)
